@@ -19,7 +19,7 @@ structure Ins where
   deriving Repr, DecidableEq
 
 inductive ImmType where
-  | R | I | S | B | U | J
+  | R | I | S | B | U | J | shamt
   deriving DecidableEq, Repr, Inhabited
 
 inductive Reg where
@@ -58,6 +58,7 @@ def immParse (t : ImmType) (v : Nat) : Int × Bool :=
   | .J =>
     let u := bitRange v 21 31 * 2 + bitRange v 20 21 * 2048 + bitRange v 12 20 * 4096 + bitRange v 31 32 * 1048576
     (signExtendImm u 20, true)
+  | .shamt => ((bitRange v 20 26 : Nat), true)
 
 /-- `expr.ConstFromUint(val)` for a value of a `size`-byte unsigned type -/
 def constFromUint (size val : Nat) : Expr := .const (natToLE size val)
@@ -164,6 +165,7 @@ structure Entry where
   storeBytes : Nat
   imm : ImmType
   typ : Nat
+  uimm : Bool
   effects : Ins → List (Option Effect)
 
 /-- `instructionType.validEffects` -/
@@ -195,7 +197,8 @@ def Entry.text (e : Entry) (i : Ins) : String :=
   let as0 : List String :=
     (if e.hasOutputReg then [regName (regNum .rd i.value)] else []) ++
     (if e.inputRegCnt > 0 then [regName (regNum .rs1 i.value)] else []) ++
-    (if e.inputRegCnt > 1 then [regName (regNum .rs2 i.value)] else [])
+    (if e.inputRegCnt > 1 then [regName (regNum .rs2 i.value)] else []) ++
+    (if e.uimm then [toString (regNum .rs1 i.value)] else [])
   let as1 : List String :=
     match immParse e.imm i.value with
     | (_, false) => as0
